@@ -23,10 +23,16 @@ CONSTANTS Peers, Hashes,
           MaxPend,    \* maxPendingPushes
           Horizon,    \* bound on time (model runs only)
           HeadCheck,  \* TRUE: the loop re-validates the peeked head under the mutex (repaired code)
+          PlainBase,  \* items h >= PlainBase belong to a SECOND push type whose holder does not support pending requests (like the
+                      \* transaction pool and the key pool): no RegisterPull, no AddPendingPush, at the cap an announcer is not asked.
+                      \* The manager keeps ONE registry for all push types, keyed by type and hash: the item h carries the same
+                      \* 128-bit hash VALUE as the item h - PlainBase of the first type - they are nevertheless different items.
           MaxHold,    \* how many announcers may be pre-empted at the cap evaluation at a time (per hash)
           CritOn      \* TRUE: the loop may be pre-empted INSIDE its critical section (at its holder.Has() call)
 
 None == -1
+Plain == {h \in Hashes : h >= PlainBase}
+Tracked == Hashes \ Plain
 
 VARIABLES now,      \* current tick
           has,      \* SUBSET Hashes: items the holder stores
@@ -67,10 +73,11 @@ InsertSorted(list, e) ==
 RemoveAt(list, i) == SubSeq(list, 1, i - 1) \o SubSeq(list, i + 1, Len(list))
 
 \* a pull request goes out to peer p for hash h now; RegisterPull stores the time
-Request(s, p, h) == [s EXCEPT !.out = Append(@, [p |-> p, h |-> h]),
-                              !.active[h] = s.now,
-                              !.pulls[h] = Append(@, s.now),
-                              !.regs[h] = <<s.now>>]
+Request(s, p, h) == IF h \in Plain THEN [s EXCEPT !.out = Append(@, [p |-> p, h |-> h]), !.pulls[h] = Append(@, s.now)]
+                    ELSE [s EXCEPT !.out = Append(@, [p |-> p, h |-> h]),
+                                   !.active[h] = s.now,
+                                   !.pulls[h] = Append(@, s.now),
+                                   !.regs[h] = <<s.now>>]
 
 \* the request goes out but the calling goroutine is pre-empted before RegisterPull
 RequestUnregistered(s, p, h) == [s EXCEPT !.out = Append(@, [p |-> p, h |-> h]),
@@ -81,7 +88,7 @@ RequestUnregistered(s, p, h) == [s EXCEPT !.out = Append(@, [p |-> p, h |-> h]),
 Decide(s1, p, h, c) ==
     IF c >= MaxPar THEN
          \* AddPendingPush: stored only while an active pull exists, stamped with ITS time
-         IF h \in s1.has \/ Len(s1.pend) > MaxPend \/ s1.active[h] = None THEN s1
+         IF h \in Plain \/ h \in s1.has \/ Len(s1.pend) > MaxPend \/ s1.active[h] = None THEN s1
          ELSE [s1 EXCEPT !.pend = InsertSorted(@, [p |-> p, h |-> h, t |-> s1.active[h]])]
     ELSE Request(s1, p, h)
 
@@ -183,9 +190,9 @@ MutexFree(h) == cnt[h] = 0 => \A x \in Hashes : late[x] # 2
 QueuesNot(h, c) == pc = "crit" => (h \in has \/ c < MaxPar)
 Announce(p, h) == MutexFree(h) /\ QueuesNot(h, cnt[h] + 1) /\ Install(DoAnnounce(State, p, h)) /\ L("Announce", p, h)
 AnnounceSplit(p, h) == /\ \A x \in Hashes : late[x] = 0          \* at most one pre-empted announcer at a time
-                       /\ h \notin has /\ cnt[h] + 1 < MaxPar /\ MutexFree(h)
+                       /\ h \in Tracked /\ h \notin has /\ cnt[h] + 1 < MaxPar /\ MutexFree(h)
                        /\ Install(DoAnnounceSplit(State, p, h)) /\ L("AnnounceSplit", p, h)
-AnnounceHold(p, h) == /\ h \notin has /\ cnt[h] >= 1 /\ Len(capw[h]) < MaxHold
+AnnounceHold(p, h) == /\ h \in Tracked /\ h \notin has /\ cnt[h] >= 1 /\ Len(capw[h]) < MaxHold
                       /\ \A i \in 1..Len(capw[h]) : capw[h][i].p # p
                       /\ Install(DoAnnounceHold(State, p, h)) /\ L("AnnounceHold", p, h)
 AnnounceResume(p, h) == /\ \E i \in 1..Len(capw[h]) : capw[h][i].p = p
